@@ -23,6 +23,7 @@ type c14BlockCase struct {
 	Target  c01Step    `json:"target"`
 	DstLen  int        `json:"dstlen"` // 0 = bound
 	History []gen.Data `json:"history"`
+	HistDst []int      `json:"histdst,omitempty"` // destination length of each history call (0 = bound): short ones fail part-way
 	Hammer  bool       `json:"hammer"`
 }
 
@@ -60,10 +61,16 @@ func runC14Block(c c14BlockCase, rec *stat.Rec) *stat.Failure {
 	}
 	// (b) a compressor that has processed unrelated inputs (every table slot dirty), different prior dst contents, spare capacity
 	var used blockComps
-	for _, h := range c.History {
+	for i, h := range c.History {
 		hs := h.Build()
 		hd := make([]byte, lz4.CompressBlockBound(len(hs)))
+		if i < len(c.HistDst) && c.HistDst[i] > 0 && c.HistDst[i] < len(hd) {
+			hd = hd[:c.HistDst[i]]
+			rec.Class("block/history-call-into-short-destination")
+		}
 		_, _ = used.compress(objKind, 4, hs, hd)
+		// the pooled objects get the same kind of history
+		_, _ = used.compress(pkgKind, 4, hs, hd)
 	}
 	out, n, err := run(&used, objKind, 0xFF, 64)
 	if f := same("reused-compressor", out, n, err); f != nil {
@@ -151,7 +158,13 @@ func drawC14Block(t *rapid.T) c14BlockCase {
 	k := rapid.IntRange(1, 3).Draw(t, "nhist")
 	for i := 0; i < k; i++ {
 		maxLen := pick(300<<10, 4<<20)
-		c.History = append(c.History, gen.DrawData(t, maxLen, "hist"))
+		h := gen.DrawData(t, maxLen, "hist")
+		c.History = append(c.History, h)
+		hd := 0
+		if rapid.IntRange(0, 2).Draw(t, "histshort?") == 0 {
+			hd = rapid.IntRange(1, maxI(1, lz4.CompressBlockBound(h.Len())-1)).Draw(t, "histdst")
+		}
+		c.HistDst = append(c.HistDst, hd)
 	}
 	c.Hammer = rapid.IntRange(0, 3).Draw(t, "hammer") == 0
 	return c
@@ -285,7 +298,7 @@ const c14Rule = "blocks: the same (source, depth, destination length) is compres
 func TestC14Blocks(t *testing.T) {
 	rec := stat.For("C14")
 	rec.SetRule(c14Rule)
-	rec.Require("block/nontrivial", "block/pools-hammered", "block/comp/hc-depth0", "block/comp/fast", "block/dst-below-bound")
+	rec.Require("block/nontrivial", "block/history-call-into-short-destination", "block/pools-hammered", "block/comp/hc-depth0", "block/comp/fast", "block/dst-below-bound")
 	if thorough() {
 		rec.Require("block/history>=1MiB")
 	}
